@@ -137,6 +137,12 @@ def run(args) -> int:
         rng.shuffle(hs)
         fixed = [[['pred', 0, mlib.F1, [mlib.c(0)], 'T'], ['pred', 0, [1, 1], [mlib.c(1)], L['values'][-2]]],
                  [['atomic', 0, 0, 'T']]]
+        if L['modal']:
+            # "deterministic and sorted": successors added out of order, with world numbers beyond the range in
+            # which CPython's small-int sets happen to iterate in numeric order
+            fixed += [[['access', 0, 8], ['access', 0, 1], ['atomic', 8, 0, 'T']],
+                      [['access', 3, 17], ['access', 3, 9], ['access', 3, 16], ['access', 1, 33], ['access', 1, 2]],
+                      [['access', 0, 40], ['access', 0, 8], ['access', 0, 32], ['access', 0, 16], ['access', 0, 24]]]
         more = [mlib.rand_history(rng, L) for _ in range(max(0, per - len(hs)))]
         for ops in fixed + hs[:per] + more:
             direct.append(dict(logic=L['name'], ops=ops))
